@@ -1108,7 +1108,29 @@ func genBoundary(rng *rand.Rand) hlib.History {
 	return h
 }
 
+// genLatencyEdge: a latency condition whose literal is the whole number of milliseconds the responses take, and
+// responses that take that long plus a fraction of a millisecond: the quantile is compared in WHOLE milliseconds.
+func genLatencyEdge(rng *rand.Rand) hlib.History {
+	var h hlib.History
+	t0 := int64(1600000000)*second + rng.Int63n(20*second)
+	x := hlib.Pick(rng, 5, 20, 50, 50, 100) // ms: small enough for the histogram to resolve fractions of a millisecond
+	lat := &ex{kind: 2, op: int64(rng.Intn(6)), metric: 2, k: 0, q: hlib.Pick(rng, 500, 500, 990), tn: x, td: 1}
+	h.Cfg = append([]int64{t0, hlib.Pick(rng, second, 10*second), hlib.Pick(rng, second, 10*second), hlib.Pick(rng, 0, 1000000)}, lat.encode(nil)...)
+	for i := 0; i < 6+rng.Intn(10); i++ {
+		l := x*1000000 + hlib.Pick(rng, 600000, 600000, 700000, 900000, 100000)
+		h.Ops = append(h.Ops, []int64{0, 2}, []int64{2, l}, []int64{1, 0, 200, 2})
+		if rng.Intn(3) == 0 {
+			h.Ops = append(h.Ops, []int64{2, hlib.Pick(rng, 1000000, 300*1000000, second)})
+		}
+	}
+	return h
+}
+
 func (c *cbComp) Gen(rng *rand.Rand, idx int, tier string, targeted bool) hlib.History {
+	if !targeted && rng.Intn(20) == 0 {
+		hlib.Count("latency_edge_histories", 1)
+		return genLatencyEdge(rng)
+	}
 	if (targeted && rng.Intn(2) == 0) || (!targeted && rng.Intn(4) == 0) {
 		return genStale(rng)
 	}
